@@ -1,6 +1,7 @@
 import Anytree.Drv.Forest
 import Anytree.Model.Attr
 import Anytree.Spec.Attr
+import Anytree.Model.AttrClass
 namespace Anytree.Drv
 open Lean Anytree Attr
 
@@ -8,20 +9,6 @@ def resAttrJ : Res String → Json
   | .value v => Json.mkObj [("v", toJson v)]
   | .attributeError => "AttributeError"
   | .diverged => "RecursionError"
-
-/-- reading a name that the class of some links defines (a class attribute of a user subclass of the link class): ordinary
-lookup answers on the first object along the chain whose class has it; plain links forward, a plain node answers from its
-own dictionary. Outside the attribute-store model (which knows instance data only): a driver-level extension, used for the
-name `kind` when a case creates links of the user class -/
-def getClassAware (h : Heap String) (isUser : Nat → Bool) (classVal : String) : Nat → Nat → String → Res String
-  | 0, _, _ => .diverged
-  | fuel+1, i, name =>
-    if isUser i then .value classVal else
-    match (h i).target with
-    | none => match dictGet (h i).dict name with
-      | some v => .value v
-      | none => .attributeError
-    | some t => getClassAware h isUser classVal fuel t name
 
 /-- family `symlink`: objects (plain or link), a sequence of attribute writes / constructor calls /
 reads; every read is answered by the mirror (`getattr`) and by the spec (`readS` on the resolved target).
